@@ -29,8 +29,8 @@
    The implementation hashes with a random seed; the model runs with a fixed arbitrary hash
    (by C07_get_spec the observables do not depend on it) and the stable insertion sort, and for
    small histories again with deliberately bad hashes -- all keys of one length in one slot with
-   the within-slot order reversed (an "unstable" sort result), and one constant hash (a single
-   chain holding every item).  [specok] is computed from the plain association list of the last
+   the within-slot order reversed (an "unstable" sort result) and LoadFromMap visiting the pairs
+   in reverse order, and one constant hash (a single chain holding every item).  [specok] is computed from the plain association list of the last
    successful load, never from the model. *)
 From GV Require Import Lib.Bytes Lib.Res Corr.Val Model.StrMap Model.StrStore Spec.StrMap.
 Open Scope Z_scope.
@@ -122,6 +122,8 @@ Definition model_step (hash : bytes -> N) (rv : bool) (st : inst) (s : step) : i
   | IMap m =>
     let '(m', r) :=
       if s_kind s =? 2 then (m, Ok tt)
+      else if (s_kind s =? 1) && rv
+      then load_map hash rsort m (rev (combine (s_keys s) (s_vals s)))    (* some other visiting order *)
       else load hash (if rv then rsort else isort) m (s_keys s) (s_vals s) in
     (IMap m',
      mksobs (rcode r) (Z.of_N (map_len m'))
@@ -131,6 +133,8 @@ Definition model_step (hash : bytes -> N) (rv : bool) (st : inst) (s : step) : i
   | IS2S t =>
     let '(t', r) :=
       if s_kind s =? 2 then (t, Ok tt)
+      else if (s_kind s =? 1) && rv
+      then s2s_load_map hash rsort t (rev (combine (s_keys s) (map vkey (s_vals s))))
       else s2s_load hash (if rv then rsort else isort) t (s_keys s) (map vkey (s_vals s)) in
     (IS2S t',
      mksobs (rcode r) (match s2s_len t' with Ok n => Z.of_N n | _ => -2 end)
